@@ -101,7 +101,9 @@ def main():
              "kind_free_text": "proptest 1.11 TestRunner driven from a binary (fixed seeds, 12 workers), reference models, scripted source, recording policy, op interpreter, exhaustive small-scope enumerators"},
             {"name": "sched", "path": "sched/", "serves_properties": [p for p in props if CHECKS.get(p, {}).get("engine") == "sched"],
              "kind_free_text": "shuttle 0.9 deterministic schedulers (random / PCT / DFS) over the real parallel.rs built with feature verif_hooks; proptest generates configurations"},
-            {"name": "fuzz", "path": "fuzz/", "serves_properties": ["C01", "C02", "C03", "C06"],
+            {"name": "blackbox", "path": "blackbox/", "serves_properties": ["C07", "C08", "C15", "C16"],
+             "kind_free_text": "fallback only: the same drivers and oracles as sched/ on real threads without the hook (no schedule control, watchdog = exit 2); check.sh uses it when the build with feature verif_hooks fails although /repo itself builds"},
+            {"name": "fuzz", "path": "fuzzproj/", "serves_properties": ["C01", "C02", "C03", "C06"],
              "kind_free_text": "cargo-fuzz / libFuzzer targets (thorough tier) that decode bytes into (input, configuration, ops) and run the same oracles"},
         ],
         "checks": [],
